@@ -9,7 +9,7 @@
                                 close() (= checkpoint(), closed := true: Drop then does nothing)
      src/database/dml/insert.rs row loop: AUTO_INCREMENT, NOT NULL, PRIMARY KEY index lookup,
                                 next_row_id.fetch_add, BTree::insert ("key already exists"), index insert;
-                                header (row_count, auto_increment) written only after the loop
+                                header row_count written only after the loop, auto_increment as soon as an id is handed out
      src/database/dml/delete.rs tombstones, index entries removed, header row_count, WAL flush
      src/database/dml/update.rs in-place update, WAL flush
      src/database/pragma.rs     PRAGMA wal = ON|OFF (ensure_wal), PRAGMA wal_checkpoint
@@ -88,7 +88,11 @@ Definition pk_mem (pk : list (Z * Z)) (a : Z) : bool := existsb (fun e => fst e 
 Fixpoint pk_find (pk : list (Z * Z)) (a : Z) : option Z :=
   match pk with [] => None | (k, i) :: t => if k =? a then Some i else pk_find t a end.
 
-(* loop state: leaf, index, next_row_id, auto_increment_current, auto_increment_max, count *)
+(* largest id a BIGINT column can hold *)
+Definition auto_limit : Z := 9223372036854775807.
+(* loop state: leaf, index, next_row_id, auto_increment_current, auto_increment_max, count.
+   The header counter is written as soon as auto_increment_max grows (before the row's
+   constraint checks), so it equals i_max whether or not the statement completes. *)
 Record iacc := mkI { i_rows : list row; i_pk : list (Z * Z); i_next : Z; i_cur : Z; i_max : Z; i_cnt : Z }.
 
 (* one row of the VALUES list; None = the statement fails here (what was done so far stays) *)
@@ -98,8 +102,11 @@ Definition ins_row (kind : Z) (c : iacc) (v : option Z * Z) : iacc * bool :=
   let '(a, cur, mx, neg) :=
     if kind =? 2 then
       match a0 with
-      | None => (Some (i_cur c + 1), i_cur c + 1, Z.max (i_max c) (i_cur c + 1), false)
-      | Some x => if x <? 0 then (a0, i_cur c, i_max c, true) else (a0, i_cur c, Z.max (i_max c) x, false)
+      | None => if i_cur c + 1 <=? auto_limit
+                then (Some (i_cur c + 1), i_cur c + 1, Z.max (i_max c) (i_cur c + 1), false)
+                else (a0, i_cur c, i_max c, true)                       (* auto_increment overflow *)
+      | Some x => if (x <? 0) || (auto_limit <? x) then (a0, i_cur c, i_max c, true)
+                  else (a0, Z.max (i_cur c) x, Z.max (i_max c) x, false)
       end
     else (a0, i_cur c, i_max c, false) in
   let c1 := mkI (i_rows c) (i_pk c) (i_next c) cur mx (i_cnt c) in
@@ -132,11 +139,9 @@ Inductive effect := ENone | ECreate (t : Z) | ETouch (t : Z) (changed flushed : 
 Definition do_insert (tb : ltbl) (next : Z) (vals : list (option Z * Z)) : ltbl * Z * bool :=
   let cur0 := if t_kind tb =? 2 then t_auto tb else 0 in
   let '(c, ok) := ins_loop (t_kind tb) (mkI (t_rows tb) (t_pk tb) next cur0 cur0 0) vals in
-  if ok then
-    (mkT (t_kind tb) (i_rows c) (t_count tb + i_cnt c)
-         (if (t_kind tb =? 2) && (0 <? i_max c) && (t_auto tb <? i_max c) then i_max c else t_auto tb) (i_pk c),
-     i_next c, true)
-  else (mkT (t_kind tb) (i_rows c) (t_count tb) (t_auto tb) (i_pk c), i_next c, false).
+  let auto' := if t_kind tb =? 2 then i_max c else t_auto tb in
+  if ok then (mkT (t_kind tb) (i_rows c) (t_count tb + i_cnt c) auto' (i_pk c), i_next c, true)
+  else (mkT (t_kind tb) (i_rows c) (t_count tb) auto' (i_pk c), i_next c, false).
 
 (* ------------------------------------------------------------------ DELETE / UPDATE  (WHERE b = v, live rows) *)
 Definition hit (v : Z) (r : row) : bool := r_live r && (r_b r =? v).
